@@ -270,10 +270,20 @@ struct PGMIndex<K, Epsilon, EpsilonRecursive, Floating>::Segment {
     inline size_t operator()(const K &k) const {
         size_t pos;
         if constexpr (std::is_same_v<K, int64_t> || std::is_same_v<K, int32_t>)
-            pos = size_t(slope * double(std::make_unsigned_t<K>(k) - key));
+            pos = to_offset(slope * double(std::make_unsigned_t<K>(k) - key));
         else
-            pos = size_t(slope * double(k - key));
+            pos = to_offset(slope * double(k - key));
         return pos + intercept;
+    }
+
+    /**
+     * Converts a predicted offset to an integer. A steep segment evaluated far from its key predicts an offset that
+     * does not fit size_t, whose conversion is undefined; offsets saturate at the largest intercept, which is where
+     * callers cap the returned position anyway.
+     */
+    static inline size_t to_offset(double offset) {
+        constexpr auto max_offset = std::numeric_limits<decltype(intercept)>::max();
+        return offset < double(max_offset) ? size_t(offset) : size_t(max_offset);
     }
 };
 
